@@ -122,6 +122,7 @@ func (proc *Processor) executeChild(ctx context.Context, statements []parser.Sta
 }
 
 func (proc *Processor) ExecuteStatement(ctx context.Context, stmt parser.Statement) (StatementFlow, error) {
+	verifPoint("stmt.begin", "")
 	if ctx.Err() != nil {
 		return TerminateWithError, ConvertContextError(ctx.Err())
 	}
